@@ -63,6 +63,7 @@ type xcase struct {
 	Base   int             `json:"base"`
 	NCells int             `json:"ncells"`
 	Writes [][3]int        `json:"writes"`
+	Wide   bool            `json:"wide"` // too large for position-coded colours: byte comparison (G) only
 }
 
 type xform struct {
@@ -322,7 +323,7 @@ func imagexformCmd(args []string) error {
 		rows := c.Cfg.SH
 		pars := []int{c.Cfg.P, 1, 2, 3, 7, 16, rows + 5}
 		// T: which source pixel landed in which cell
-		for t := 0; t < 2; t++ {
+		for t := 0; t < 2 && !c.Wide; t++ {
 			sk := traceSrc[(i+t)%len(traceSrc)]
 			dk := img.DstKinds[(i/3+t)%len(img.DstKinds)]
 			if c.Cfg.Inplace {
